@@ -409,6 +409,33 @@ theorem C01_same_meaning_same_behaviour (cc : CharClass) (src1 src2 : Text) (a1 
   rw [← Nat.add_assoc, Nat.add_comm n2 n1] at b
   rw [a, b]
 
+/-- the same for the stage-6 fragment (functions, calls, heap values; no validation, syntactic condition `Sim6.src6Top`):
+    two texts to which the definitional semantics gives the same answer get the same answer from `eval` for every large
+    enough budget — whatever the compiler made of them: variables at top level or in a function, literals or variables,
+    mirrored operands, other constant pools — unless one of them stops at the machine's stack/frame limit -/
+theorem C01_same_meaning_same_behaviour_with_functions (cc : CharClass) (src1 src2 : Text) (a1 a2 : Block) (r1 r2 : RBlock) (b1 b2 : Bytecode)
+    (hp1 : parse cc src1 = .ok a1) (hc1 : compileProgram a1 = .ok (r1, b1)) (hs1 : Sim6.src6Top a1 = true)
+    (hp2 : parse cc src2 = .ok a2) (hc2 : compileProgram a2 = .ok (r2, b2)) (hs2 : Sim6.src6Top a2 = true)
+    (F1 F2 : Nat) (t : Tree) (out : List Text)
+    (h1 : specText cc F1 src1 = .value t out) (h2 : specText cc F2 src2 = .value t out) :
+    (∃ n o, ∀ k, evalText cc (n + k) src1 = .error .index o) ∨ (∃ n o, ∀ k, evalText cc (n + k) src2 = .error .index o) ∨
+    ∃ n, ∀ k, evalText cc (n + k) src1 = evalText cc (n + k) src2 := by
+  have e1 := Sim6.eval_text6_checked cc src1 a1 r1 b1 hp1 hs1 hc1 F1
+  have e2 := Sim6.eval_text6_checked cc src2 a2 r2 b2 hp2 hs2 hc2 F2
+  rcases e1 with e1 | e1
+  · exact .inl e1
+  rcases e2 with e2 | e2
+  · exact .inr (.inl e2)
+  rw [h1] at e1; rw [h2] at e2
+  obtain ⟨n1, e1⟩ := e1
+  obtain ⟨n2, e2⟩ := e2
+  refine .inr (.inr ⟨n1 + n2, fun k => ?_⟩)
+  have a := e1 (n2 + k)
+  have b := e2 (n1 + k)
+  rw [← Nat.add_assoc] at a
+  rw [← Nat.add_assoc, Nat.add_comm n2 n1] at b
+  rw [a, b]
+
 /-- `stel a = [1.5, "x"]; stel b = a; b[0] = a; print(a, lengte(a)); zolang lengte(a) < 1 { stop }; a[1][0] + "y"` -/
 def heapAst : Block :=
   .cons (.letS "a".toList (.arr (.cons (.float 0x3FF8000000000000) (.cons (.str "x".toList) .nil))))
